@@ -102,7 +102,11 @@ where
       self
         .datasample_cache
         .fill_from_deserialized_cache_change(dcc);
+      #[cfg(rustdds_verif)]
+      crate::verif_hooks::sched::yield_point("dr.filled_one");
     }
+    #[cfg(rustdds_verif)]
+    crate::verif_hooks::sched::yield_point("dr.filled");
     Ok(())
   }
 
